@@ -14,7 +14,9 @@
 (*           len = length of the reference text, sched = how often the     *)
 (*           scope provider answers Postponed before it resolves           *)
 (*   files : Seq of file names, "" = loaded from a string without name     *)
-(*   procs : rules that have an object processor                           *)
+(*   lang  : per file the language (1 or 2) its model belongs to           *)
+(*   procs : rules that have an object processor (language 1; procs2,      *)
+(*           repl2, replk2 are the registrations of language 2)            *)
 (*   repl  : rules whose processor returns a replacement value, replk the  *)
 (*           kind of that value ("str" = a string naming rule and object,  *)
 (*           otherwise a falsy Python value: "zero" "empty" "list" ...)    *)
@@ -109,23 +111,30 @@ SpanContains(a, b) == a # b /\ a[1] <= b[1] /\ b[2] <= a[2]
 
 ----------------------------------------------------------------------------
 \* C13: which processors are called for an object, and with what effect
-HasProc(s, r) == r \in RangeOf(s.procs)
-Replaces(s, r) == r \in RangeOf(s.repl)
+\* Every file is a model of one of (at most) two languages with the same grammar but their own
+\* processor registrations: lang[f] = 1 -> procs/repl/replk, lang[f] = 2 -> procs2/repl2/replk2.
+\* An object is processed with the table of the language of ITS model.
+Lang(s, o) == s.lang[FileOf(s, o)]
+ProcsFor(s, o) == IF Lang(s, o) = 1 THEN s.procs ELSE s.procs2
+ReplFor(s, o) == IF Lang(s, o) = 1 THEN s.repl ELSE s.repl2
+ReplkFor(s, o) == IF Lang(s, o) = 1 THEN s.replk ELSE s.replk2
+HasProc(s, o, r) == r \in RangeOf(ProcsFor(s, o))
+Replaces(s, o, r) == r \in RangeOf(ReplFor(s, o))
 \* own-rule processor (only when the declared rule differs), then the declared rule's
 CallsOf(s, o) ==
-  (IF Kind(s, o) # Decl(s, o) /\ HasProc(s, Kind(s, o)) THEN <<Kind(s, o)>> ELSE <<>>)
-  \o (IF HasProc(s, Decl(s, o)) THEN <<Decl(s, o)>> ELSE <<>>)
+  (IF Kind(s, o) # Decl(s, o) /\ HasProc(s, o, Kind(s, o)) THEN <<Kind(s, o)>> ELSE <<>>)
+  \o (IF HasProc(s, o, Decl(s, o)) THEN <<Decl(s, o)>> ELSE <<>>)
 ExpectedCount(s, o, r) == Cardinality({i \in 1..Len(CallsOf(s, o)) : CallsOf(s, o)[i] = r})
 Item(o) == "o" \o ToString(o)
-ReplKind(s, r) == s.replk[IndexIn(s.repl, r)]
+ReplKind(s, o, r) == ReplkFor(s, o)[IndexIn(ReplFor(s, o), r)]
 \* the value the processor of rule r returns for object o: a string naming both, or a
 \* falsy value (which still is "not None" and therefore replaces the object)
-ReplItem(s, r, o) == IF ReplKind(s, r) = "str" THEN "r:" \o r \o ":" \o ToString(o)
-                     ELSE "f:" \o ReplKind(s, r)
+ReplItem(s, r, o) == IF ReplKind(s, o, r) = "str" THEN "r:" \o r \o ":" \o ToString(o)
+                     ELSE "f:" \o ReplKind(s, o, r)
 \* what the containing attribute holds afterwards: the own-rule result wins
 Result(s, o) ==
-  IF Kind(s, o) # Decl(s, o) /\ HasProc(s, Kind(s, o)) /\ Replaces(s, Kind(s, o)) THEN ReplItem(s, Kind(s, o), o)
-  ELSE IF HasProc(s, Decl(s, o)) /\ Replaces(s, Decl(s, o)) THEN ReplItem(s, Decl(s, o), o)
+  IF Kind(s, o) # Decl(s, o) /\ HasProc(s, o, Kind(s, o)) /\ Replaces(s, o, Kind(s, o)) THEN ReplItem(s, Kind(s, o), o)
+  ELSE IF HasProc(s, o, Decl(s, o)) /\ Replaces(s, o, Decl(s, o)) THEN ReplItem(s, Decl(s, o), o)
   ELSE Item(o)
 
 CallRec(o, r) == [obj |-> o, rule |-> r, linked |-> TRUE, inited |-> TRUE]
@@ -323,10 +332,10 @@ C13_OwnFirst ==
        /\ calls[j].rule # calls[i].rule) => i < j
 
 CallCount(o, r) == Count(calls, LAMBDA c : c.obj = o /\ c.rule = r)
-Rules == UNION {{Kind(sc, o), Decl(sc, o)} : o \in Objs(sc)} \cup RangeOf(sc.procs)
+Rules == UNION {{Kind(sc, o), Decl(sc, o)} : o \in Objs(sc)} \cup RangeOf(sc.procs) \cup RangeOf(sc.procs2)
 \* 1 for the own rule when registered; 1 for a different, registered declared rule; else 0
 DocCount(o, r) ==
-  IF ~HasProc(sc, r) THEN 0
+  IF ~HasProc(sc, o, r) THEN 0
   ELSE IF r = Kind(sc, o) THEN 1
   ELSE IF r = Decl(sc, o) THEN 1 ELSE 0
 C13_Once ==
